@@ -78,8 +78,11 @@ def one(job):
             r = subprocess.run([sys.executable, os.path.join(VERIF, "check.py"), "--property", p, "--tier", tier], capture_output=True, text=True, env=env, cwd=VERIF)
             tags = sorted(set(re.findall(r"^  # \S+ ([\w.,-]+):", r.stdout, re.M)))
             first = re.search(r"^  # (.*)$", r.stdout, re.M)
-            res["props"][p] = {"rc": r.returncode, "tags": tags[:6], "first": first.group(1)[:200] if first else "", "s": round(time.time() - t0)}
-            if r.returncode == 2:
+            rc = r.returncode
+            if rc == 1 and "VIOLATION property=" not in r.stdout:
+                rc = 2  # exit 1 without a VIOLATION line is not a verdict
+            res["props"][p] = {"rc": rc, "tags": tags[:6], "first": first.group(1)[:200] if first else "", "s": round(time.time() - t0)}
+            if rc == 2:
                 res["props"][p]["first"] = (r.stdout + r.stderr)[-300:].replace("\n", " ")
         return res
     finally:
@@ -96,6 +99,7 @@ def main():
     ap.add_argument("--seed", type=int, default=1)
     ap.add_argument("--all-props", action="store_true", help="run every property's check against each mutant (cross-alarm matrix)")
     ap.add_argument("--out", default=None)
+    ap.add_argument("--skip", default="", help="with --all-props: properties to leave out (a change's own property always runs)")
     a = ap.parse_args()
     ensure_catch()
     idx = a.index or os.path.join(a.dir, "INDEX.txt")
@@ -106,7 +110,12 @@ def main():
         name, props = line.split()[:2]
         if a.only and a.only not in name:
             continue
-        jobs.append((name, ALL if a.all_props else props.split(","), a.dir, a.tier, a.seed))
+        if a.all_props:
+            skip = set(a.skip.split(",")) - set(props.split(","))
+            plist = [p for p in ALL if p not in skip]
+        else:
+            plist = props.split(",")
+        jobs.append((name, plist, a.dir, a.tier, a.seed))
     results = []
     with cf.ThreadPoolExecutor(a.j) as ex:
         for res in ex.map(one, jobs):
